@@ -65,6 +65,9 @@ pub enum Body {
   /// as Mio06, but the participant has a second local reader on the same topic (sharing the topic cache),
   /// which processes every datagram first
   Mio06SecondReader,
+  /// as Mio06SecondReader, but the held-back sample is released by a HEARTBEAT: DATA 1, DATA 3, then
+  /// HEARTBEAT(first = 3) - sample 2 no longer exists
+  Mio06SecondReaderHb,
   /// three async writes into a capacity-1 command queue vs process_writer_command
   AsyncWrite,
   /// async_wait_for_acknowledgments vs process_writer_command + ACKNACK
@@ -159,7 +162,7 @@ fn reader_body(body: Body, prefix: &[usize]) -> RunResult {
   let q = qos(true, 0, false);
   let (sub, topic) = sub_and_topic("c13_t", &q, true);
   let my_prefix = idle_participant().guid().prefix;
-  let reader_eid = if body == Body::Mio06SecondReader { reader_eid(8) } else { reader_eid(7) };
+  let reader_eid = if matches!(body, Body::Mio06SecondReader | Body::Mio06SecondReaderHb) { reader_eid(8) } else { reader_eid(7) };
   let reader_guid = GUID::new_with_prefix_and_id(my_prefix, reader_eid);
   let topic_cache = Arc::new(Mutex::new(crate::structure::dds_cache::TopicCache::new(
     "c13_t".into(),
@@ -169,7 +172,7 @@ fn reader_body(body: Body, prefix: &[usize]) -> RunResult {
   let (ing, notification_rx, status_rx, command_tx, waker, event_source) =
     reader_ingredients(reader_guid, "c13_t", &q, topic_cache.clone());
   // the other local reader of the same topic: same topic cache, its own channels (nobody consumes from it)
-  let other = if body == Body::Mio06SecondReader {
+  let other = if matches!(body, Body::Mio06SecondReader | Body::Mio06SecondReaderHb) {
     Some(reader_ingredients(GUID::new_with_prefix_and_id(my_prefix, super::common::reader_eid(7)), "c13_t", &q, topic_cache.clone()))
   } else {
     None
@@ -260,7 +263,7 @@ fn reader_body(body: Body, prefix: &[usize]) -> RunResult {
         }
         drop(stream);
       }
-      Body::Mio06 | Body::Mio08 | Body::Mio06SecondReader => {
+      Body::Mio06 | Body::Mio08 | Body::Mio06SecondReader | Body::Mio06SecondReaderHb => {
         let mut dr = DataReader::from_simple_data_reader(sdr);
         // "wait until readable": the guard performs a real zero-timeout poll on the real registered
         // source and latches a seen event (edge-triggered events must not be lost by merely asking)
@@ -338,10 +341,11 @@ fn reader_body(body: Body, prefix: &[usize]) -> RunResult {
       _other_keep.push(Box::new((n2, s2, c2, e2, ps_rx2)) as Box<dyn std::any::Any>);
     }
     // addressed to every reader matched with the writer (reader id UNKNOWN) when there are two of them
-    let rid = if body == Body::Mio06SecondReader { EntityId::UNKNOWN } else { reader_eid };
+    let rid = if matches!(body, Body::Mio06SecondReader | Body::Mio06SecondReaderHb) { EntityId::UNKNOWN } else { reader_eid };
     let data = |sn: i64| wire::data_msg(&wire::cc_data(wg, sn, Msg::new(1, sn as u32, 0).cdr()), rid, None);
     let datagrams: Vec<Vec<u8>> = match body {
       Body::Mio06 | Body::Mio08 | Body::Mio06SecondReader => vec![data(1), data(3), wire::gap_msg(wg, rid, 2, 3, &[])],
+      Body::Mio06SecondReaderHb => vec![data(1), data(3), wire::heartbeat_msg(wg, rid, 3, 3, 1, false)],
       Body::SimpleStreamBadThenGood | Body::SampleStreamBadThenGood | Body::BareStreamBadThenGood => vec![wire::data_msg(&wire::cc_data(wg, 1, vec![1, 2]), rid, None), data(2)],
       _ => vec![data(1), data(2)],
     };
